@@ -1,0 +1,60 @@
+//go:build verif
+
+package bcd
+
+// Contract-language built-ins. Declarations only; they are never called by
+// non-verif code. The verifier interprets them; replays execute them.
+
+func old[T any](x T) T { return x }
+
+func implies(a, b bool) bool { return !a || b }
+
+func ite[T any](c bool, a, b T) T {
+	if c {
+		return a
+	}
+	return b
+}
+
+// res stands for the i-th result of the function under contract.
+func res[T any](i int) T { var z T; return z }
+
+// quantifier variables
+var qi, qj, qk int
+
+// rangeindex names the hidden index of a for-range loop in its invariant:
+// the index of the element processed last (-1 before the first iteration).
+var rangeindex int
+
+func forall(v int, lo, hi int, body bool) bool { return body }
+func exists(v int, lo, hi int, body bool) bool { return body }
+
+// isnil reports whether an interface / pointer / slice value is nil.
+func isnil(x any) bool { return x == nil }
+
+// sameBytes(s, t, lo, n): s[i] == t[lo+i] for 0 <= i < n, and len(s) == n
+func sameBytes(s []byte, t []byte, lo int, n int) bool {
+	if len(s) != n || lo < 0 || lo > len(t) || n > len(t)-lo {
+		return false
+	}
+	for i := 0; i < n; i++ {
+		if s[i] != t[lo+i] {
+			return false
+		}
+	}
+	return true
+}
+
+// aliases(s, t, lo, hi): s is exactly the window t[lo:hi]
+func aliases(s []byte, t []byte, lo, hi int) bool {
+	if lo < 0 || hi < lo || hi > len(t) || len(s) != hi-lo {
+		return false
+	}
+	if hi == lo {
+		return true
+	}
+	return &s[0] == &t[lo]
+}
+
+// dyntype(x, "T") : the dynamic type of interface x is T
+func dyntype(x any, name string) bool { return true }
